@@ -627,8 +627,29 @@ def all_enumerated(tier):
     )
 
 
+def _cleanup_on_sigterm():
+    """The runner may terminate worker processes in the middle of a shard (early stop of sensitivity / seeded
+    runs): remove this process's work directory before dying.  Only installed in forked workers."""
+    import multiprocessing
+    import signal
+
+    if multiprocessing.parent_process() is None:
+        return None
+
+    def handler(signum, frame):
+        remove_workdir()
+        signal.signal(signal.SIGTERM, signal.SIG_DFL)
+        os.kill(os.getpid(), signal.SIGTERM)
+
+    try:
+        return signal.signal(signal.SIGTERM, handler)
+    except ValueError:  # not the main thread of the process
+        return None
+
+
 def run_shard(spec, ctx):
     rec = core.Rec()
+    _cleanup_on_sigterm()
     _keep_dirs[0] = True
     try:
         core.enum_shard(expand(core.sliced(all_enumerated(ctx.tier), ctx.index, ctx.nshards)), check_case, ctx, rec=rec)
